@@ -418,13 +418,13 @@ func (m Mesh) BoundingBox(atr string) geometry.AABB {
 }
 
 func (m Mesh) scanTrisPrimitives(start, size int, f func(i int, p Primitive)) {
-	for i := start; i < size; i++ {
+	for i := start; i < start+size; i++ {
 		f(i, m.Tri(i))
 	}
 }
 
 func (m Mesh) scanPointPrimitives(start, size int, f func(i int, p Primitive)) {
-	for i := start; i < size; i++ {
+	for i := start; i < start+size; i++ {
 		f(i, &Point{
 			mesh:  &m,
 			index: i,
@@ -433,7 +433,7 @@ func (m Mesh) scanPointPrimitives(start, size int, f func(i int, p Primitive)) {
 }
 
 func (m Mesh) scanLinePrimitives(start, size int, f func(i int, p Primitive)) {
-	for i := start; i < size; i++ {
+	for i := start; i < start+size; i++ {
 		f(i, &Line{
 			mesh:          &m,
 			startingIndex: i,
